@@ -136,6 +136,11 @@ type Grammar struct {
 	StateIn  bool     `json:"state_in,omitempty"` // code blocks pass c.state to the recorder
 	Profile  string   `json:"profile,omitempty"`
 	NumIDs   int      `json:"num_ids"`
+	// Decoy names a rule (never the first one) that the printed grammar defines twice: an
+	// earlier definition `"\x00decoy"`-like literal that the real, later one replaces. pigeon
+	// accepts repeated rule names; references, the analysis and the Entrypoint option all
+	// resolve a name to its last definition, so the decoy never takes part in a parse.
+	Decoy string `json:"decoy,omitempty"`
 	// Init is the initializer code block including braces (front-end checks; "" = default).
 	Init  string  `json:"init,omitempty"`
 	InitP *[3]int `json:"initp,omitempty"`
